@@ -518,10 +518,18 @@ def sc_pkg(name, items, prefix="", unresolvable=()):
                 sl.append(("aw", ycount(yields, ("pkg", it), j), Exn("NotImpl") if it in unresolvable else list(PKG[it][1])))
             else:
                 sl.append(("plain", it))
+        sc.problem = None
         if out[0] == "exn":
             obs = Exn(out[1])
         else:
             obs = [t.value for t in out[1].scan_values(lambda v: isinstance(v, Token)) if t.type == "CONDITION_KEY"]
+            # every package occurrence is paired with the value produced for it: the leaves, in written order, are the plain keys and, at the place of
+            # each package occurrence, the keys of ITS package expression
+            want = []
+            for it in items:
+                want += list(PKG[it][1]) if it.endswith("P") else [it]
+            if not any(it in unresolvable for it in items) and obs != want:
+                sc.problem = (want, obs)
         return canon((out[0], str(out[1]))), [(f"CPackages {gslots(sl)}", obs)]
 
     return Scenario("parse_expression_including_unresolved_subexpressions", name, {"expression": expr, "packages": table}, slots, fn)
@@ -756,6 +764,8 @@ def scenarios(ctx):
     S.append(sc_pkg("pkg-top", ["1P"]))
     S.append(sc_pkg("pkg4", ["1P", "2P", "3P", "4P"], prefix="Muss "))
     S.append(sc_pkg("pkg-unresolvable", ["1P", "2P", "3P"], unresolvable=("2P",)))
+    S.append(sc_pkg("pkg-depths", ["3P", "1P", "8", "2P"]))      # O binds looser than U / X: the occurrences sit at different depths of the tree
+    S.append(sc_pkg("pkg-depths2", ["9", "2P", "3P", "1P", "7"]))
     if not ctx.quick:
         S.append(sc_pkg("pkg5", ["1P", "2P", "1P", "3P", "2P"]))
     # the sites directly, with repeated keys and answers that differ per occurrence
@@ -920,6 +930,10 @@ def run(ctx):
                 ctx.fail(f"{sc.name}|leak", inp, "every evaluator finds its own task's text in the ContextVar after yielding", out, "oracle: context isolation")
             elif out != base:
                 ctx.fail(f"{sc.name}|order", inp, base, out, "oracle: result for this yield vector differs from the result when nothing yields")
+            if getattr(sc, "problem", None):
+                ctx.fail(f"{sc.name}|pairing", inp, f"condition keys in written order {sc.problem[0]}", f"{sc.problem[1]}",
+                         "oracle: every package occurrence is paired with the expression produced for it")
+                sc.problem = None
             if any(vec):
                 n_nontrivial += 1
             for term, obs in cases:
